@@ -63,3 +63,9 @@ Proof.
   apply (popcount_land_range _ lo hi 64); [assumption|].
   change (2 ^ N.of_nat 64)%N with (Z.to_N (2 ^ 64)). apply Z2N.inj_lt; lia.
 Qed.
+
+(* the masks the bit helpers are specified by (as integers) *)
+Definition spec_between_mask (i j : Z) : Z :=
+  Z.of_N (range_mask (S (Nat.min (Z.to_nat i) (Z.to_nat j))) (Nat.max (Z.to_nat i) (Z.to_nat j))).
+Definition spec_above_mask (i : Z) : Z := Z.of_N (range_mask (S (Z.to_nat i)) 64).
+Definition spec_below_mask (i : Z) : Z := Z.of_N (range_mask 0 (Z.to_nat i)).
